@@ -1,5 +1,5 @@
 From Coq Require Import List ZArith Bool.
-From MM Require Import model.Dates gen.Gen_Dates harness.RunCommon.
+From MM Require Import model.Dates gen.Gen_Dates proofs.DatesBridge harness.RunCommon.
 Import ListNotations.
 Open Scope Z_scope.
 
@@ -8,19 +8,23 @@ Fixpoint ins_z (x : Z) (l : list Z) : list Z :=
 Definition sort_z (l : list Z) := fold_right ins_z [] l.
 Definition date_eqb (a b : date) : bool :=
   let '(y1, m1, d1) := a in let '(y2, m2, d2) := b in (y1 =? y2) && (m1 =? m2) && (d1 =? d2).
-(* entries and what the implementation answered: None = ValueError, Some = sorted calendar days *)
-Definition case := (list entry * option (list date))%type.
+(* entries, the pieces of each entry's text as the harness wrote them (Some calendar day / None = text pd.Timestamp rejects;
+   the whole list None when a piece is empty text, which this translation does not cover), and what the implementation
+   answered: None = ValueError, Some = sorted calendar days *)
+Definition case := (list entry * option (list (list (option date))) * option (list date))%type.
 Definition model_out (es : list entry) : option (list date) :=
   match days_to_exclude es with
   | RaiseValueError => None
   | Ok ds => Some (map civil_from_days (sort_z ds))
   end.
-(* the same with the translated expand_time_windows / TimeWindow constructor in place of the model's *)
-Definition gen_out (es : list entry) : option (list date) :=
-  match windows_of es with
+(* the same through the translated find_days_to_exclude / expand_time_windows / TimeWindow constructor *)
+Definition piece (p : option date) : option Z := match p with Some d => parse d | None => None end.
+Definition gen_out (pss : list (list (option date))) : option (list date) :=
+  match gen_days_to_exclude (map (map piece) pss) with
   | RaiseValueError => None
-  | Ok ws => if existsb (fun w => gen_timewindow_raises (fst w) (snd w)) ws then None
-             else Some (map civil_from_days (sort_z (gen_expand_time_windows ws)))
+  | Ok ds => Some (map civil_from_days (sort_z ds))
   end.
 Definition agrees (c : case) : bool :=
-  option_eqb (list_eqb date_eqb) (model_out (fst c)) (snd c) && option_eqb (list_eqb date_eqb) (gen_out (fst c)) (snd c).
+  let '(es, pss, r) := c in
+  option_eqb (list_eqb date_eqb) (model_out es) r &&
+  match pss with Some pss => option_eqb (list_eqb date_eqb) (gen_out pss) r | None => true end.
